@@ -3,6 +3,7 @@ import PeliteModel.Spec.Strings
 import PeliteModel.Model.Relocs
 import PeliteModel.Spec.Relocs
 import PeliteModel.Model.CStrFmt
+import PeliteModel.Model.Ptr
 /-! Driver handlers for the operation families that carry their bytes inline. -/
 namespace Pelite.Driver
 open Pelite.Proto
@@ -162,9 +163,31 @@ def fmtCStr (a : List String) : String :=
     s!"ok dbg={hex (toB (CStrFmt.debug bytes))} disp={hex (toB (CStrFmt.display bytes))}"
   | _ => "bad-op"
 
+/-- ptr <32|64> <at|offset|member|text> <address> [<size> <i> | <offset>]: the typed addresses `Ptr<T>` of both
+formats (`Pir<T>`, the 32-bit twin in src/pir.rs, is behind the non-default feature `unstable`); the answer is the new address and its Display text -/
+def ptrOp (a : List String) : String :=
+  let toB (l : List Nat) : Bytes := (l.map UInt8.ofNat).toArray
+  let w (k : String) : Option Nat := match k with | "32" => some 32 | "64" => some 64 | _ => none
+  let show_ (w : Nat) (o : Out Nat) : String := outStr (fun x => s!"{x} text={hex (toB (PtrT.text w x))}") o
+  match a with
+  | [k, "at", va, size, i] => match w k with
+    | some w => show_ w (PtrT.elemAt w (num va) (num size) (num i))
+    | none => "bad-op"
+  | [k, "offset", va, off] => match w k with
+    | some w => show_ w (.ok (PtrT.offset w (num va) (num off)))
+    | none => "bad-op"
+  | [k, "member", va, off] => match w k with
+    | some w => show_ w (PtrT.member w (num va) (num off))
+    | none => "bad-op"
+  | [k, "text", va] => match w k with
+    | some w => show_ w (.ok (num va))
+    | none => "bad-op"
+  | _ => "bad-op"
+
 def dispatchPure : Handler := fun _ fam a =>
   match fam with
   | "fmt_cstr" => some (fmtCStr a)
+  | "ptr" => some (ptrOp a)
   | "strings" => some (strings a)
   | "strings_hist" => some (stringsHist a)
   | "relocs_raw" => some (relocsRaw a)
